@@ -432,10 +432,15 @@ def accept_correspondence(ctx, base):
         body = [base.random_clifford_gate(rng, n) for _ in range(rng.randint(1, 5))]
         for pos in range(len(body) + 1):
             circuits.append((n, body[:pos] + [gates.T(rng.randrange(n))] + body[pos:], None))
-    lines, real = [], []
+    lines, real, kept = [], [], []
     for n, gs, init in circuits:
         gs = [clone(g) for g in gs]
-        c = base.build(n, gs)
+        try:
+            c = base.build(n, gs)
+        except Exception:  # noqa: BLE001  (Circuit.add refuses the queue: not about the backend)
+            ctx.stat("accept_unbuildable")
+            continue
+        kept.append((n, gs, init))
         init_in = None if init is None else np.array(init, copy=True)
         try:
             r = be.execute_circuit(c, initial_state=init_in, nshots=1)
@@ -460,6 +465,7 @@ def accept_correspondence(ctx, base):
         real.append(res)
     outs = run_driver(lines, driver=DRIVER)
     bad = 0
+    circuits = kept
     for (n, gs, init), res, out in zip(circuits, real, outs):
         descr = [src_of(g, base) for g in gs]
         ctx.case(("accept", n, tuple(descr), None if init is None else init.tobytes()))
